@@ -120,3 +120,32 @@ Check C07_length_field_oversize_refuted :
   exists c n, app_wf c /\ app_calc c = Ok n /\ (262144 < N.of_nat n)%N /\
               length_field (rfc_app c) <> N.of_nat (n / 4 - 1).
 Print Assumptions C07_length_field_oversize_refuted.
+
+(* the first 32-bit word of the image of any accepted single-packet configuration of at most 262144 bytes:
+   128 (version 2) + 32 exactly when padding was requested + count / subtype / format; the packet type;
+   the length in 32-bit words minus one.  [leaf_fields m] = (packet type, requested padding, count). *)
+Theorem C07_first_word_of_every_packet_image :
+  forall (m : member) (n : nat),
+    is_leaf m = true -> member_wf m -> m_calc m = Ok n -> (N.of_nat n <= 262144)%N ->
+    nth 0 (rfc_image m) 0%N =
+      (128 + (if (0 <? snd (fst (leaf_fields m)))%N then 32 else 0) + snd (leaf_fields m))%N /\
+    nth 1 (rfc_image m) 0%N = fst (fst (leaf_fields m)) /\
+    length_field (rfc_image m) = N.of_nat (n / 4 - 1).
+Proof. exact leaf_image_first_word. Qed.
+Check C07_first_word_of_every_packet_image :
+  forall (m : member) (n : nat),
+    is_leaf m = true -> member_wf m -> m_calc m = Ok n -> (N.of_nat n <= 262144)%N ->
+    nth 0 (rfc_image m) 0%N =
+      (128 + (if (0 <? snd (fst (leaf_fields m)))%N then 32 else 0) + snd (leaf_fields m))%N /\
+    nth 1 (rfc_image m) 0%N = fst (fst (leaf_fields m)) /\
+    length_field (rfc_image m) = N.of_nat (n / 4 - 1).
+Print Assumptions C07_first_word_of_every_packet_image.
+
+Theorem C07_accepted_count_fits_5_bits :
+  forall (m : member) (n : nat),
+    is_leaf m = true -> member_wf m -> m_calc m = Ok n -> (snd (leaf_fields m) < 32)%N.
+Proof. exact accepted_count_fits_5_bits. Qed.
+Check C07_accepted_count_fits_5_bits :
+  forall (m : member) (n : nat),
+    is_leaf m = true -> member_wf m -> m_calc m = Ok n -> (snd (leaf_fields m) < 32)%N.
+Print Assumptions C07_accepted_count_fits_5_bits.
